@@ -534,6 +534,34 @@ Theorem C20_session_every_answer_accepted : forall H,
 Proof. exact session_every_answer_accepted. Qed.
 Print Assumptions C20_session_every_answer_accepted.
 
+(* ----- digest x retry attempts; digest on a clone ----- *)
+
+(* every retry attempt of one execution starts without credentials, is challenged and is answered
+   acceptably for its own challenge and client nonce - the later attempts exactly like the first *)
+Theorem C20_every_retry_attempt_answered : forall H,
+  (forall f d, clean (H f d) = true) ->
+  forall user pass first xs,
+  Forall (fun x : first_response * bytes =>
+            r_err (fst x) = false /\ r_status (fst x) = 401%N /\ r_chal (fst x) <> [] /\
+            (exists c, parse_challenge (r_chal (fst x)) = inl c /\ supported c = true) /\
+            clean (snd x) = true) xs ->
+  Forall2 (fun (x : first_response * bytes) ex =>
+             exists c q hdr, parse_challenge (r_chal (fst x)) = inl c /\
+               ex = [first; q] /\ w_auth q = Some hdr /\ w_body q = w_body first /\
+               rfc7616_accepts H c (w_uri first) (w_method first) user pass (snd x) hdr = true)
+          xs (retry_attempts H user pass first xs).
+Proof. exact retry_attempts_all_answered. Qed.
+Print Assumptions C20_every_retry_attempt_answered.
+
+(* the re-send travels over the transport of the client that executes the request, also when the
+   middleware was inherited from another client through Clone; binding it to the client it was
+   installed on sends a clone's answer over the original's route *)
+Theorem C20_resend_takes_callers_route : forall installed_on calling,
+  resend_route installed_on calling = calling /\
+  (installed_on <> calling -> resend_route_bound installed_on calling <> calling).
+Proof. intros i j. split; [reflexivity|]. intros Hne. exact Hne. Qed.
+Print Assumptions C20_resend_takes_callers_route.
+
 (* ----- several WWW-Authenticate lines (one scheme each) ----- *)
 
 (* the Digest challenge is answered wherever it stands among lines of other schemes *)
